@@ -24,35 +24,47 @@ Theorem skeleton_well_formed : table_known expected = true /\ table_closed expec
 Proof. exact (conj expected_known expected_closed). Qed.
 Print Assumptions skeleton_well_formed.
 
-(* 2. The model follows the skeleton.  For each of the four operations, every assignment of
-      the options the operation reads (flag_space), every ledger of [ledgers] (empty, one
-      deployed, superseded+deployed, deployed+failed, uninstalled, two deployed, pending,
-      none deployed; two resources, two hooks on every event), with and without resources
-      to adopt: the sequence of effect kinds the model program performs on the scripted
-      world -- without a failure, and with exactly its n-th effect failing, for every n --
-      is a path through the skeleton of the operation's Go entry point under that option
-      assignment.  [follows t rt s fails] is
-        raccepts rt (model_trace s fails) FUEL (index_of (entry_of (sc_op s)) t) (env_of (sc_fl s));
-      rexpected = resolve_table expected, the same table with names resolved. *)
+(* 2. The model follows the skeleton.  [follows t rt s fails] is
+        raccepts rt (model_trace s fails) FUEL (index_of (entry_of (sc_op s)) t) (env_of (sc_fl s)):
+      the sequence of effect kinds that the model program of scenario s performs on the
+      scripted world, with the effects at the positions [fails] failing, is a path through
+      the skeleton of the operation's Go entry point under the scenario's option assignment;
+      rexpected = resolve_table expected (the same table with names resolved).
+
+   2a. Failure-free: each of the four operations, every assignment of the options the
+       operation reads (flag_space), every ledger of [ledgers] (empty, one deployed,
+       superseded+deployed, deployed+failed, uninstalled, two deployed, pending, none
+       deployed; two resources, two hooks on every event), with and without resources to
+       adopt. *)
 Theorem model_follows_skeleton :
   forall (o : opk) (fl : flags) (l : list release) (ad : bool),
     In fl (flag_space o) -> In l ledgers ->
-    follows expected rexpected (mkScen o fl l ad) [] = true /\
-    forall n, n < List.length (model_trace (mkScen o fl l ad) []) ->
-      follows expected rexpected (mkScen o fl l ad) [n] = true.
+    follows expected rexpected (mkScen o fl l ad) [] = true.
 Proof. exact model_follows_skeleton_lemma. Qed.
 Print Assumptions model_follows_skeleton.
+
+(* 2b. Failures: on the smaller space fail_flag_space x fail_ledgers (atomic / cleanup-on-fail /
+       keep-history / replace x no-hooks on the ledgers where the operation runs to its end),
+       the run with exactly the n-th effect failing, for EVERY position n of the failure-free
+       run (every storage write, cluster call, wait and hook watch in turn). *)
+Theorem model_failures_follow_skeleton :
+  forall (o : opk) (fl : flags) (l : list release),
+    In fl (fail_flag_space o) -> In l (fail_ledgers o) ->
+    follows expected rexpected (mkScen o fl l false) [] = true /\
+    forall n, n < List.length (model_trace (mkScen o fl l false) []) ->
+      follows expected rexpected (mkScen o fl l false) [n] = true.
+Proof. exact model_failures_follow_skeleton_lemma. Qed.
+Print Assumptions model_failures_follow_skeleton.
 
 Theorem rexpected_is_expected : rexpected = resolve_table expected.
 Proof. exact rexpected_is. Qed.
 Print Assumptions rexpected_is_expected.
 
-(* ... and, failure-free, for EVERY assignment of the eight boolean options (also the ones
-   the operation does not read), max-history 2 *)
+(* 2c. Failure-free, for EVERY assignment of the eight boolean options (also the ones the
+       operation does not read), max-history 2, on the operation's main ledger. *)
 Theorem model_follows_skeleton_all_flags :
-  forall (o : opk) (a c k r h d co tk : bool) (l : list release) (ad : bool),
-    In l ledgers ->
-    follows expected rexpected (mkScen o (mkFlags a c k r 2 h d co tk 0) l ad) [] = true.
+  forall (o : opk) (a c k r h d co tk : bool),
+    follows expected rexpected (mkScen o (mkFlags a c k r 2 h d co tk 0) (main_ledger o) false) [] = true.
 Proof. exact model_follows_skeleton_all_flags_lemma. Qed.
 Print Assumptions model_follows_skeleton_all_flags.
 
@@ -60,9 +72,9 @@ Print Assumptions model_follows_skeleton_all_flags.
       A call site = an effect, a call of a tracked function or a run of a nested action,
       named (function, index in preorder).  Every call site of the expected skeleton is
       either in [needed] -- with a run of the scenario space (wit_run w: operation, option
-      assignment, ledger, adopt, failing positions) that is NOT a path any more once that one
-      site is deleted (del_follows st sf = follows with the table [table_del (fst st) (snd st)
-      expected]) -- or in [not_needed], each with its reason (outside the model: crds/,
+      assignment, ledger, adopt, failing positions) that is a path of the skeleton and is NOT
+      a path any more once that one site is deleted (del_follows st sf = follows with the
+      table [table_del (fst st) (snd st) expected]) -- or in [not_needed], each with its reason (outside the model: crds/,
       CreateNamespace, Recreate, WaitForJobs, pod logs, context cancellation; or an
       alternative of the same kind on a sibling path).  92 needed, 37 not, 129 in all. *)
 Theorem skeleton_calls_needed :
@@ -70,6 +82,7 @@ Theorem skeleton_calls_needed :
     exists s fails,
       wit_run w = Some (s, fails) /\
       In (sc_fl s) (flag_space (sc_op s)) /\ In (sc_led s) ledgers /\
+      follows expected rexpected s fails = true /\
       del_follows st (s, fails) = false.
 Proof. exact skeleton_sites_needed_lemma. Qed.
 Print Assumptions skeleton_calls_needed.
